@@ -328,6 +328,9 @@ def owner_only_writes(repo: Repo, R, rule: str, why: str):
 # --------------------------------------------------------------------------
 
 
+ATTACHING: List[str] = []  # checks currently being run as attachments (c05 attaches c18 and c18 attaches c05: not inside each other)
+
+
 class Retag:
     """Reporter view that files obligations under another rule id.
 
